@@ -73,7 +73,8 @@ def value_of(s):
         return {"o": {k: [v, {k: v}]}, "l": [[v], []]}
     if sh == "tables":
         k, v = A[s["k"]], A[s["v"]]
-        d = {"t": {k: v, "s": {k: v}}, "aot": [{k: v}, {k: 1}]}
+        # sub-tables, arrays of tables, and empty tables / arrays in every position
+        d = {"t": {k: v, "s": {k: v}, "e": {}}, "aot": [{k: v}, {k: 1}, {}], "e": {}, "ea": [], "es": {"e": {}}}
         d[k] = v
         return d
     if sh == "jsonml":
